@@ -395,6 +395,10 @@ def gen_c03(tier, rng):
                 i += 1
                 for kind in kinds:
                     cases.append(("outboard", [kind, rng.randrange(1, 1 << 40), size, bs, entry]))
+                # all-zero and sparse blobs (identical zero chunk groups at different positions)
+                if i % 3 == 0 or tier == "thorough":
+                    cases.append(("outboard", [1, 0, size, bs, entry]))
+                    cases.append(("outboard", [4, rng.randrange(1, 1 << 40), size, bs, entry]))
     return cases
 
 
@@ -564,7 +568,7 @@ def dec_case(kind, sd, size, bs, claimed, driver, sink, q, bs_s=None, size2=0, s
 
 
 def drivers_and_sinks(rng, full):
-    ds = [(0, 0), (1, 0)]
+    ds = [(0, 0), (1, 0), (4, 0)]
     sinks = range(0, 5) if full else (rng.randrange(0, 5),)
     for s in sinks:
         ds.append((2, s))
@@ -587,6 +591,10 @@ def gen_c02(tier, rng):
                     dss = rng.sample(dss, 2)
                 for (d, sk) in dss:
                     cases.append(dec_case(rng.randrange(0, 3), seed(rng), size, bs, size, d, sk, q))
+                # the response followed by more bytes on the same stream: exactly the response must be consumed
+                (d, sk) = rng.choice(dss)
+                cases.append(dec_case(rng.randrange(0, 3), seed(rng), size, bs, size, d, sk, q,
+                                      ops=[4, seed(rng), rng.choice([1, 63, 64, 1000, 9000, 20000]), 0]))
     return cases
 
 
@@ -625,10 +633,10 @@ def gen_c09(tier, rng):
                 pos, L = stream_positions(lay, tier, rng, 300 if tier == "quick" else 2200)
                 sd = seed(rng)
                 for p in pos:
-                    d = rng.randrange(0, 4)
+                    d = rng.randrange(0, 5)
                     sk = rng.randrange(0, 2)
                     cases.append(dec_case(0, sd, size, bs, size, d, sk, q, ops=[1, p, 0, 0]))
-                    d = rng.randrange(0, 4)
+                    d = rng.randrange(0, 5)
                     cases.append(dec_case(0, sd, size, bs, size, d, sk, q, ops=[2, p, 1 + rng.randrange(255), 0]))
     return cases
 
@@ -1092,8 +1100,10 @@ def gen_sched(tier, rng, with_faults):
                     if rng.random() < 0.2:
                         mixed.append((1, 0))
                     mixed.append(e)
-                cases.append(sched_case(rng.randrange(0, 3), sd, size, bs, 4, None, 0, [], mixed))
-                cases.append(sched_case(0, sd, size, bs, 4, None, rng.randrange(1, size + 1) if size else 0, [], mixed))
+                drv = rng.choice([4, 5])
+                cases.append(sched_case(rng.randrange(0, 3), sd, size, bs, drv, None, 0, [], mixed))
+                cases.append(sched_case(0, sd, size, bs, 9 - drv, None, 0, [], mixed))
+                cases.append(sched_case(0, sd, size, bs, drv, None, rng.randrange(1, size + 1) if size else 0, [], mixed))
                 if with_faults:
                     cases.append(sched_case(0, sd, size, bs, 4, (rng.randrange(1, 2 * n + 3), rng.randrange(0, 4)), 0, [], mixed))
     return cases
@@ -1182,6 +1192,12 @@ def gen_copy(tier, rng):
             for fk in range(0, 4):
                 for tk in range(0, 5) if tier == "thorough" else (rng.randrange(0, 5),):
                     cases.append(("copy", [0, seed(rng), size, bs, fk, tk, rng.randrange(0, 2)]))
+            # incomplete node-keyed source: pairs missing at some slots, all others must be copied
+            nb = max(1, -(-nchunks(size) // (1 << bs)))
+            if nb > 2:
+                for _ in range(2):
+                    rem = sorted(set(rng.randrange(0, nb - 1) for _ in range(rng.randrange(1, 3))))
+                    cases.append(("copy", [0, seed(rng), size, bs, 5, rng.randrange(0, 4), 0] + rem))
     return cases
 
 
